@@ -27,6 +27,7 @@ def M(name, short=None, default=None, optional=True, env=None, group=None, desc=
 
 
 def D(opts, pos=None, greedy=False, **kw):
+    # kw may carry greedy_first=True: greedy_postionals() is called before accept_positionals()
     d = {"opts": opts, "pos": pos, "greedy": greedy, "app": b"prog"}
     d.update(kw)
     return d
@@ -101,6 +102,12 @@ def token_pool(decl):
         add("long-near-miss", b"--" + n[:-1] if len(n) > 1 else b"--" + n + n)
         if s and all(s != p["name"] for p in opts):
             add("long-is-letter", b"--" + s)
+    all_letters = b"".join(o["short"] for o in opts if o.get("short"))
+    for o in opts:
+        if o["kind"] != "t" and o.get("short") and all_letters:
+            # the value consists of the short names of all declared options
+            add("short-eq-value-of-letters", b"-" + o["short"] + b"=" + all_letters)
+            add("short-eq-value-of-letters", b"--" + o["name"] + b"=-" + all_letters)
     add("long-undeclared", b"--" + UNDECL_LONG)
     add("long-undeclared-eq", b"--" + UNDECL_LONG + b"=x")
     add("no-undeclared", b"--no-" + UNDECL_LONG)
